@@ -476,3 +476,11 @@ def replay(spec):
             if not (np.allclose(xs, xj, atol=tol) and np.allclose(Ps, Pj, atol=tol)):
                 fails.append('sequential processing in order %s differs from the joint update' % (order,))
     return {'violated': bool(fails), 'detail': fails}
+
+
+RIM = {'lat': -84.6, 'lon': 150.0, 'alt': 15000.0, 'VN': 250.0, 'VE': -200.0, 'VD': 5.0, 'roll': 120.0, 'pitch': -60.0, 'heading': -170.0}
+
+
+def FALLBACK(tier):
+    """numeric oracle specs put to the compiled code when the symbolic run is inconclusive (main.py)"""
+    return [{'check': 'correct', 'point': {}, 'params': {'n': n, 'm': m}} for n, m in ((1, 1), (2, 1), (3, 2), (4, 3))] + [{'check': 'blocks', 'point': {}, 'params': {'n': 2, 'm': 2}}]
